@@ -87,7 +87,7 @@ def rand_route(rng):
     if r < 0.5:
         return None
     if r < 0.62:
-        return [rng.choice(['pickle', 'deepcopy', 'pickle-of-slice'])]      # an object that came back from a pickle / deep copy
+        return [rng.choice(['pickle', 'deepcopy', 'pickle-of-slice', 'file', 'file-limited', 'file-limited'])]      # back from a pickle / deep copy, or backed by a file
     return [rb(rng, rng.choice([1, 3, 5, 7, 9, 11, 63, 65])), rb(rng, rng.choice([0, 1, 2, 7, 8, 13]))]
 
 
@@ -112,6 +112,20 @@ def build(spec, pos=None, receiver=None):
     if len(spec) >= 4:
         pre, post = spec[2], spec[3]
         s = mk(k, pre + bits + post)[len(pre):len(pre) + len(bits)]
+    elif len(spec) == 3 and spec[2] in ('file', 'file-limited'):
+        # backed by a file: the whole of it (length a multiple of 8), or the first len(bits) bits of a longer file
+        import os as _os
+        import tempfile as _tempfile
+        tail = '' if (spec[2] == 'file' and len(bits) % 8 == 0 and bits) else '1' * (-len(bits) % 8) + '10110111' * 3
+        raw = bits + tail
+        fd, path = _tempfile.mkstemp(prefix='rv_c01_')
+        try:
+            _os.write(fd, int(raw, 2).to_bytes(len(raw) // 8, 'big'))
+            _os.close(fd)
+            with util.options(lsb0=False):
+                s = CLASSES[k](filename=path) if not tail else CLASSES[k](filename=path, length=len(bits))
+        finally:
+            _os.unlink(path)
     elif len(spec) == 3:
         import copy as _copy
         import pickle as _pickle
